@@ -85,8 +85,10 @@ static const scen_t scenarios[] = {
   {"D13", "B1,reuse=1", 4, "P0.2 P1.2 P0.2", "", {"B[P0.1,P1.1] B[D0,D1]", "K", "P0.2"}, 0,
    "ldb_backup while the memtable is being switched and flushed in the background"},
   {"D7", "B1", 0, "P0.1 F P1.1 F P2.1 F P3.1 F P0.1 F P1.1 F P2.1 F P3.1 F P0.1 F P1.1 F P2.1 F P3.1", "",
-   {"P0.1 P1.1", "P2.1", "g0 g1"}, 0,
-   "12 level-0 files (repaired image): writers stall on the level-0 stop trigger until the compaction started at open completes", 3},
+   {"P0.2 P1.2 P0.2 P1.2 P0.2 P1.2", "P2.1", "g0 g1"}, 0,
+   "12 level-0 files (repaired image): a writer that fills the write buffer stalls on the level-0 stop trigger until the compaction started at open completes", 3},
+  {"D16", "B1", 1, "", "", {"P2.1", "P2.1", "B[P0.3,P1.3]"}, 0,
+   "three writers, the last batch (140 KB) exceeds the group-commit size limit behind a small leader"},
   {"D2b", "B1", 4, "", "", {"B[P0.1,P1.1]", "B[D0,D1]", "t t"}, 0,
    "batch writer + batch deleter + iterator scanner (both keys or none)"},
 };
